@@ -288,6 +288,11 @@ def main():
                     eobs = r["observations"][i] if r.get("observations") else None
                     if eobs is None:
                         continue
+                    # assertions that only the native run can evaluate (e.g. scanning real encoded bytes)
+                    nat_only = [x for x in obs if x.startswith("ASSERT-FAIL:native-only:")]
+                    obs = [x for x in obs if not x.startswith("ASSERT-FAIL:native-only:")]
+                    if nat_only and not any(x.startswith("ASSERT-FAIL:") for x in eobs):
+                        problems.append((3, f"NATIVE-ONLY-ASSERTION-FAILED {sname}/{jid}: {nat_only[:2]} vector={reqs[req_meta.index((kind, jid, i))]['vector']}"))
                     bad = [x for x in eobs if x == "PANIC" or x == "ASSUME-FAIL" or x.startswith("ENGINE-")]
                     if bad:
                         problems.append((3, f"ENGINE-MISMATCH {sname}/{jid}: witness {i} of a completed path does not complete when re-executed concretely: {bad[:2]} vector={reqs[req_meta.index((kind, jid, i))]['vector']}"))
